@@ -326,6 +326,10 @@ fn cmd_conc(args: &[String]) {
         if ctl_path.is_some() {
             ctl_lines.push(format!("# case-seed {} mode {}", cseed, mode));
             ctl_lines.push(r.ctl_line.clone());
+            for l in &r.rw_lines {
+                ctl_lines.push(format!("# case-seed {} mode {}", cseed, mode));
+                ctl_lines.push(l.clone());
+            }
         }
         *by_class.entry(case.hash_class.to_string()).or_default() += 1;
         for e in &r.trace {
